@@ -30,7 +30,7 @@ IGNORES = {
 class Opts(object):
     def __init__(self, terms='tok', max_rules=4, shaping=False, priorities=False, acyclic=False, templates=False,
                  ignore=True, term_prio=False, max_alts=3, max_items=3, depth=2, big_rep=False, anon_re=False,
-                 underscore_terms=None, ignore_kinds=None, nonnull=False, unit_bias=False, tok_sets=None):
+                 underscore_terms=None, ignore_kinds=None, nonnull=False, unit_bias=False, tok_sets=None, distinct_anon=False, unique_aliases=False):
         self.terms = terms; self.max_rules = max_rules; self.shaping = shaping; self.priorities = priorities
         self.acyclic = acyclic; self.templates = templates; self.ignore = ignore; self.term_prio = term_prio
         self.max_alts = max_alts; self.max_items = max_items; self.depth = depth; self.big_rep = big_rep
@@ -38,6 +38,8 @@ class Opts(object):
         self.underscore_terms = shaping if underscore_terms is None else underscore_terms
         self.ignore_kinds = ignore_kinds
         self.tok_sets = tok_sets
+        self.unique_aliases = unique_aliases   # an alias name is used by one rule only
+        self.distinct_anon = distinct_anon   # anonymous literals never spell a named terminal (taken from the unused part of the prefix-free set)
         self.unit_bias = unit_bias  # many alternatives that are a single reference to a higher-ranked rule (unit chains)
         self.nonnull = nonnull      # no construct that can match the empty string (CYK-compatible)
 
@@ -52,8 +54,11 @@ def grammars(draw, o):
     # ---- terminals
     nt = draw(st.integers(1, 4))
     terms = []
+    spare = []
     if o.terms == 'tok':
-        vals = draw(st.sampled_from(o.tok_sets or TOK_SETS))[:nt]
+        if o.distinct_anon: nt = min(nt, 3)
+        allvals = draw(st.sampled_from(o.tok_sets or TOK_SETS))
+        vals = allvals[:nt]; spare = allvals[nt:]
         pats = [({'kind': 'str', 'value': v, 'flags': ''}, [v]) for v in vals]
     elif o.terms == 'ovl':
         vals = draw(st.lists(st.sampled_from(OVL_VALUES), min_size=nt, max_size=nt, unique=True))
@@ -78,7 +83,7 @@ def grammars(draw, o):
         terms.append(t)
     tnames = [t['name'] for t in terms]
     ignore = []
-    if o.ignore and draw(st.integers(0, 9)) < 4:
+    if o.ignore == 'always' or (o.ignore and draw(st.integers(0, 9)) < 4):
         cands = [p for p in IGNORES[o.ignore_kinds or o.terms] if all(p['value'] != t['pat']['value'] for t in terms)]
         k = draw(st.integers(1, 2)) if o.terms != 'tok' else 1
         chosen = draw(st.lists(st.sampled_from(cands), min_size=1, max_size=k, unique_by=lambda p: p['value']))
@@ -106,6 +111,10 @@ def grammars(draw, o):
         return ['t', tnames[draw(st.integers(0, len(pats) - 1))]]
 
     def term_item():
+        if o.distinct_anon:
+            if spare and o.shaping and draw(st.integers(0, 3)) == 0:
+                return ['lit', spare[draw(st.integers(0, len(spare) - 1))], '']
+            return ['t', tnames[draw(st.integers(0, len(pats) - 1))]]
         if o.shaping and draw(st.integers(0, 3)) == 0:
             # anonymous literal; sometimes the pattern of a named terminal
             t = terms[draw(st.integers(0, len(pats) - 1))]
@@ -233,6 +242,7 @@ def grammars(draw, o):
             alias = None
             if o.shaping and not nm.startswith('_') and draw(st.integers(0, 5)) == 0:
                 alias = 'al%d' % draw(st.integers(0, 1))
+                if o.unique_aliases: alias = 'al_%s_%d' % (nm.strip('_'), draw(st.integers(0, 1)))
             alts.append({'items': its, 'alias': alias})
         mod = ''
         if o.shaping and nm != 'start':
